@@ -122,7 +122,7 @@ def main():
             out.append(f"def {name} (sig : Nat → R) (M : CMV {k} R) : CMV {k} R := {tr.env['numerator']}\n")
             thms.append((name, f"theorem {name}_eq {{R : Type}} [CommRing R] (sig : Nat → R) (M : CMV {k} R) : "
                                f"GenClosed.{name} sig M = {TARGET[k]} := by\n"
-                               f"  simp only [GenClosed.{name}{UNFOLD[k]}]\n"))
+                               f"  first | (simp only [GenClosed.{name}{UNFOLD[k]}]; done) | (simp only [GenClosed.{name}{UNFOLD[k]}, add_comm, add_left_comm])\n"))
             status[name] = dict(status='ok')
         except Refuse as r:
             status[name] = dict(status='refused', reason=str(r))
